@@ -114,7 +114,7 @@ func DrawArgs(t *rapid.T, label string) []val.KV {
 		// (quotes, brackets, dots, question marks, blanks), holding a NEIGHBOURING value: a statement on the one
 		// must not be answered with the value of the other
 		e := out[rapid.IntRange(0, len(out)-1).Draw(t, label+"_twin_of")]
-		deco := rapid.SampledFrom([]string{"'%s'", "%s?", ".%s", "[%s]", "%s[]", " %s", "%s ", "%s.", "'%s", "%s'", "`%s`", "(%s)", "%s[0]", "$%s", "%s:", "-%s"}).Draw(t, label+"_twin_deco")
+		deco := rapid.SampledFrom([]string{"'%s'", "%s?", ".%s", "[%s]", "%s[]", " %s", "%s ", "%s.", "'%s", "%s'", "`%s`", "(%s)", "%s[0]", "$%s", "%s:", "-%s", `CORP\%s`, `%s\n`, `\%s`, `%s\\x`}).Draw(t, label+"_twin_deco")
 		k := fmt.Sprintf(deco, e.K)
 		var v val.V
 		ok := true
